@@ -109,7 +109,10 @@ RefQ refStrict(const std::string &I) {
     if (R.size() > UriGreyAbove) return fin(r, RefQ::Grey, "uri-length-limit");
     bool multi = false;
     const size_t vs = versionSuffix(R, r.major, r.minor, multi);
-    if (vs && multi) return fin(r, RefQ::Grey, "multi-digit-version"); // documented: recorded as 0.0, answered 505 by the caller
+    // HTTP-version = "HTTP/" DIGIT "." DIGIT: a multi-digit token after a delimiter is neither a valid version nor
+    // (because of the SP) part of a simple-request target => not a request-line at all. Glued to the target it is
+    // ambiguous like "GET /xHTTP/1.1" (grey).
+    if (vs && multi) return (R.size() > vs && R[R.size() - vs - 1] == ' ') ? fin(r, RefQ::Reject, "multi-digit-version") : fin(r, RefQ::Grey, "multi-digit-version");
     if (vs && R.size() > vs && R[R.size() - vs - 1] == ' ') {
         r.target = R.substr(0, R.size() - vs - 1);
         if (r.target.empty()) return fin(r, RefQ::Reject, "no-target");
@@ -158,7 +161,10 @@ RefQ refRelaxed(const std::string &I) {
     bool multi = false;
     const size_t vs = versionSuffix(R, r.major, r.minor, multi);
     if (vs) {
-        if (multi) return fin(r, RefQ::Grey, "multi-digit-version");
+        if (multi) {
+            const char prev = R.size() > vs ? R[R.size() - vs - 1] : 0;
+            return (prev && isRelaxedDelim(prev)) ? fin(r, RefQ::Reject, "multi-digit-version") : fin(r, RefQ::Grey, "multi-digit-version");
+        }
         std::string before = R.substr(0, R.size() - vs);
         size_t d2 = 0;
         while (!before.empty() && isRelaxedDelim(before.back())) { before.pop_back(); ++d2; }
